@@ -36,6 +36,8 @@ class ModuleInfo:
                 base = n.module or ""
                 if n.level:
                     parts = dotted.split(".")
+                    if path.endswith("__init__.py"):
+                        parts = parts + ["__init__"]       # a package's own relative imports are relative to the package
                     base = ".".join(parts[: len(parts) - n.level] + ([n.module] if n.module else []))
                 for a in n.names:
                     self.imports[a.asname or a.name] = base + "." + a.name
@@ -65,16 +67,51 @@ def is_module(dotted: str) -> bool:
     return os.path.exists(p + ".py") or os.path.exists(os.path.join(p, "__init__.py"))
 
 
-DROPPED_DECORATORS = ("jit", "staticmethod", "profile_func", "wraps")
+DROPPED_DECORATORS = ("jit", "staticmethod", "profile_func", "wraps", "property")
+
+
+def resolve_export(key: str) -> str:
+    """follow re-exports (`from .layout.region import Region2D` in a package __init__) to the defining module;
+    a class name resolves to its __init__"""
+    mod, qn = key.split(":")
+    seen = set()
+    while (mod, qn) not in seen:
+        seen.add((mod, qn))
+        try:
+            mi = module(mod)
+        except SourceError:
+            break
+        head = qn.split(".")[0]
+        if head in mi.classes and qn == head:
+            return mod + ":" + head + ".__init__"
+        if qn in mi.functions or head in mi.classes:
+            return mod + ":" + qn
+        tgt = mi.imports.get(head)
+        if tgt is None:
+            break
+        m2, _, name = tgt.rpartition(".")
+        if not is_module(m2):
+            break
+        mod, qn = m2, ".".join([name] + qn.split(".")[1:])
+    return key
+
+
+def is_class(key: str) -> bool:
+    r = resolve_export(key)
+    return r.endswith(".__init__") and not key.endswith(".__init__")
 
 
 def function(key: str):
     """(ModuleInfo, FunctionDef) for 'dotted.module:qualname'.  Drops only: docstring, annotations
     (ignored by the engine), and the decorators listed in DROPPED_DECORATORS."""
+    key = key.split("#")[0]                      # "mod:qualname#variant": several contracts for one function
     mod, qn = key.split(":")
     mi = module(mod)
     fn = mi.functions.get(qn)
     if fn is None:
+        tgt = resolve_export(key)
+        if tgt != key:
+            return function(tgt)
         raise SourceError("function not found: " + key)
     for d in fn.decorator_list:
         dn = d
